@@ -120,7 +120,7 @@ PROPS["C08"] = {
 
 PROPS["C10"] = {
     "kani": ["c10_layout", "c10_flex", "c10_container"],
-    "verus": ["surface", "layouttree"],
+    "verus": ["surface", "layouttree", "imagecells"],
     "technique": "Kani/CBMC full-domain harnesses on constraint clamp and alignment arithmetic; Verus contracts on Layout::apply_to over the C07 window model and on the layout-tree arena (Tree/TreeMut default methods, TreeIter, FindPath hit-testing) with an arena invariant; the View-tree induction is not mechanised",
     "level_text": "Proved (Kani, all usize): Size::clamp / BoxConstraint::clamp return a size inside every constraint with min <= max (identity inside), loosen/loose/tight as documented; "
                   "Align::align places the (clamped) child inside the space for Start/Center/End/Expand/Shrink and never panics. These are the functions every leaf and container view ends its layout with. "
@@ -132,6 +132,7 @@ PROPS["C10"] = {
                   "keeping tree_wf and all existing values; pop detaches the FIRST child; child_mut/sibling/children/TreeIter::next walk exactly the child_first/sibling links; TreeMutView::new keeps tree_wf; "
                   "FindPath::next (hit-testing) yields the current layout and descends into the first child, in insertion order, whose recorded rectangle contains the position, with the position re-expressed relative to it - "
                   "no index out of range, no subtraction underflow, and the sibling walk terminates (decreases on the forward links). "
+                  "Proved (Verus, unit imagecells): Image::size_cells (with round_up, Size::new, Size::is_empty) returns the ceiling of the pixel size over the cell's pixel size in both dimensions, 0x0 for an empty image or unknown cell size, without division by zero or overflow. "
                   "Flex distribution over several children and flex factors, Frame/ScrollBar/Tag/Dynamic, Text/Image/glyph leaves and actual painting are NOT decided.",
     "level_note": "Partial: clamp/align arithmetic, Layout::apply_to, the layout arena and hit-testing, and the empty/one-child flex are under contract; flex with several children is not.",
     "assumptions": [
@@ -246,7 +247,7 @@ PROPS["C20"] = {
 
 PROPS["C09"] = {
     "kani": ["c09_text"],
-    "verus": ["celllayout", "putcell", "utf8stream", "textlayout", "ttywriter"],
+    "verus": ["celllayout", "putcell", "utf8stream", "textlayout", "ttywriter", "imagecells"],
     "technique": "Verus contracts on the single layout routine Cell::layout, on TerminalWriter::put_cell over the ghost window model of surfaces shared with C07 (frame condition), and on the streaming Utf8Decoder::decode against a byte-wise fold with chunk-independence lemmas; all extracted from the real code",
     "level_text": "Proved (Verus, every cell size, width, wrap mode, cursor and tracked size): Cell::layout keeps the writer invariant cursor.col <= max_width and size.width <= max_width, the tracked size is a "
                   "monotonically growing bounding box that covers every placed cell, a cell is placed at the cursor when it fits, else (wrapping only) at column 0 of the next row (r == place(..)), and nothing is placed exactly for "
@@ -268,7 +269,7 @@ PROPS["C09"] = {
                   "Text::layout/render agreement ('every printable cell exactly once in reading order') are NOT decided.",
     "level_note": "Cell::size is an uninterpreted function; Face/Image/Glyph/ViewContext/Utf8Decoder-in-writer are opaque stand-ins (N18); the glyph-fallback prelude of put_cell is cut off by precondition (N16); SurfaceMutView operations are used through the contracts proved in unit surface.",
     "assumptions": [
-        "Cell::size returns some Size (uninterpreted); coordinates are below 2^24 and strides/start below 2^32 (screen-sized), so sums cannot overflow",
+        "Cell::size is uninterpreted in the layout units; of its three arms the image arm (Image::size_cells) is proved in unit imagecells, the character arm (unicode-width) and the glyph arm are not; coordinates are below 2^24 and strides/start below 2^32 (screen-sized), so sums cannot overflow",
         "put_cell: the call does not take the glyph-fallback path (terminal has glyph support or the cell is not a glyph): precondition; that path recurses through a closure over str::chars and is outside the dialect",
         "put_cell: SurfaceMutView::{shape,size,get_mut,data_mut} are specified by the contracts that unit surface proves for the Surface/SurfaceMut default methods (get_mut added there); the forwarding impls for SurfaceMutView are trusted",
         "derived PartialEq on Position (`cursor_start != self.cursor`) has no specification in Verus: both outcomes are covered",
